@@ -459,7 +459,7 @@ def s_gcp(draw):
     probes = [[draw(st.integers(0, 16)) / 16, draw(st.integers(0, 16)) / 16] for _ in range(3)]
     # a second view-changing step on top of the first (crop/pad of a zoomed box, zoom of a cropped box, ...): the
     # derived box then carries both a non-unit scale and a non-zero offset relative to the control points' frame
-    op2 = draw(st.sampled_from(["none", "none", "getitem", "pad", "zoom_out", "pad_wh", "zoom_to"]))
+    op2 = draw(st.sampled_from(["none", "none", "getitem", "pad", "zoom_out", "pad_wh", "zoom_to", "center_pixel"]))
     P2 = {}
     if op2 == "getitem":
         P2 = {"f": sorted([draw(st.integers(0, 7)) / 8, draw(st.integers(1, 8)) / 8]) + sorted([draw(st.integers(0, 7)) / 8, draw(st.integers(1, 8)) / 8])}
@@ -571,6 +571,9 @@ def o_gcp(case, T):
             a2 = P2["ax"]
             out2 = out.pad_wh(a2)
             off2, sc2, shape2 = (0, 0), (1.0, 1.0), (-(-h1 // a2) * a2, -(-w1 // a2) * a2)
+        elif op2 == "center_pixel":
+            out2 = out.center_pixel
+            off2, sc2, shape2 = (w1 // 2, h1 // 2), (1.0, 1.0), (1, 1)
         elif op2 == "zoom_to":
             sh2 = P2["shape"]
             out2 = out.zoom_to(tuple(sh2))
